@@ -359,5 +359,84 @@ impl Name {
         proof { lemma_canon_cmp_equal(true, self.labels(), other.labels()); }
 //%end
 }
+
+// ---- Hash for Name (name.rs). C04: "Name equality and hashing ignore ASCII case and nothing else": what is fed to the
+//      hasher is a function of (is_fqdn, the labels' octets folded to lower case), so names that are equal hash equal.
+//      core::hash::Hasher gives no guarantee that write(&[a, b]) and write_u8(a); write_u8(b) hash alike, so the hasher is
+//      modelled by the LOG of calls it received (one event per call), not by a byte stream. ----
+pub enum HEv { Bool(bool), U8(u8), Bytes(Seq<u8>) }
+pub struct VpHasher { pub log: Ghost<Seq<HEv>> }
+impl VpHasher {
+    pub fn write_u8(&mut self, b: u8) ensures final(self).log@ == old(self).log@.push(HEv::U8(b)) { self.log = Ghost(self.log@.push(HEv::U8(b))); }
+    pub fn write(&mut self, bytes: &[u8]) ensures final(self).log@ == old(self).log@.push(HEv::Bytes(bytes@)) { self.log = Ghost(self.log@.push(HEv::Bytes(bytes@))); }
+}
+// <bool as Hash>::hash: one call on the hasher carrying the flag
+pub fn vp_bool_hash(b: &bool, state: &mut VpHasher) ensures final(state).log@ == old(state).log@.push(HEv::Bool(*b)) { state.log = Ghost(state.log@.push(HEv::Bool(*b))); }
+pub open spec fn ev_lower(l: Seq<u8>) -> Seq<HEv> { Seq::new(l.len(), |i: int| HEv::U8(lower(l[i]))) }
+pub open spec fn flat_lower(ls: Seq<Seq<u8>>) -> Seq<HEv>
+    decreases ls.len()
+{ if ls.len() == 0 { Seq::empty() } else { flat_lower(ls.drop_last()) + ev_lower(ls.last()) } }
+pub open spec fn hash_feed(n: Name) -> Seq<HEv> { seq![HEv::Bool(n.is_fqdn)] + flat_lower(n.labels()) }
+pub proof fn lemma_flat_lower_push(ls: Seq<Seq<u8>>, l: Seq<u8>)
+    ensures flat_lower(ls.push(l)) == flat_lower(ls) + ev_lower(l)
+{ assert(ls.push(l).drop_last() =~= ls); }
+// names that are equal (8-bit clean except for the ASCII case of letters) feed the hasher the same calls
+pub proof fn lemma_flat_lower_eq(x: Seq<Seq<u8>>, y: Seq<Seq<u8>>)
+    requires labels_eq(true, x, y)
+    ensures flat_lower(x) == flat_lower(y)
+    decreases x.len()
+{
+    if x.len() > 0 {
+        assert(labels_eq(true, x.drop_last(), y.drop_last())) by {
+            assert forall|i: int| 0 <= i < x.drop_last().len() implies label_eq(true, #[trigger] x.drop_last()[i], y.drop_last()[i]) by {
+                assert(label_eq(true, x[i], y[i]));
+            }
+        }
+        lemma_flat_lower_eq(x.drop_last(), y.drop_last());
+        assert(label_eq(true, x[x.len() - 1], y[y.len() - 1]));
+        assert(ev_lower(x.last()) =~= ev_lower(y.last()));
+    }
+}
+pub proof fn lemma_hash_consistent_with_eq(a: Name, b: Name)
+    requires name_eq(a, b)
+    ensures hash_feed(a) == hash_feed(b)
+{ lemma_flat_lower_eq(a.labels(), b.labels()); }
+pub proof fn lemma_labels_prefix_push(n: &Name, k: int)
+    requires 0 <= k < n.nlabels()
+    ensures n.labels().subrange(0, k + 1) == n.labels().subrange(0, k).push(n.label(k)), n.labels().len() == n.nlabels(),
+        n.labels().subrange(0, 0) == Seq::<Seq<u8>>::empty(), n.labels().subrange(0, n.nlabels()) == n.labels(),
+{
+    reveal(Name::labels);
+    assert(n.labels().subrange(0, k + 1) =~= n.labels().subrange(0, k).push(n.label(k)));
+    assert(n.labels().subrange(0, 0) =~= Seq::<Seq<u8>>::empty());
+    assert(n.labels().subrange(0, n.nlabels()) =~= n.labels());
+}
+impl Name {
+//%fn crates/proto/src/rr/domain/name.rs :: impl Hash for Name :: hash
+//%rename vp_hash
+//%sub1 "<H: Hasher>" => "" # R-mono: the generic hasher is the call-log model
+//%sub1 "&mut H" => "&mut VpHasher" # R-mono
+//%sub1 "self.is_fqdn.hash(state);" => "vp_bool_hash(&self.is_fqdn, state);" # R-shim: <bool as Hash>::hash
+//%mutant hash_is_case_sensitive "b.to_ascii_lowercase()" => "b"
+//%sub1 "self.iter() .flatten() .for_each(|&b|" => "for vp_label in vp_o: self.iter() invariant self.wf(), vp_o.snapshot@.remaining().len() == self.nlabels(), 0 <= vp_o.index@ <= self.nlabels(), (forall|j: int| 0 <= j < self.nlabels() ==> (#[trigger] vp_o.snapshot@.remaining()[j])@ == self.label(j)), state.log@ == vp_log0 + seq![HEv::Bool(self.is_fqdn)] + flat_lower(self.labels().subrange(0, vp_o.index@ as int)) { let ghost vp_log1 = state.log@; let ghost vp_k = vp_o.index@ as int; proof { assert(vp_label@ == self.label(vp_k)); } for vp_b in vp_i: vp_label.iter() invariant vp_i.snapshot@.remaining().len() == vp_label@.len(), 0 <= vp_i.index@ <= vp_label@.len(), (forall|j: int| 0 <= j < vp_label@.len() ==> *(#[trigger] vp_i.snapshot@.remaining()[j]) == vp_label@[j]), state.log@ =~= vp_log1 + ev_lower(vp_label@.subrange(0, vp_i.index@ as int)) { let b = *vp_b; let ghost vp_j = vp_i.index@ as int; let ghost vp_log2 = state.log@; (" # R-iter: `X.iter().flatten().for_each(|&b| BODY)` -> the two nested loops it denotes (labels, then octets), BODY verbatim; R-ann: loop invariants
+//%sub1 "));" => ")); proof { assert(ev_lower(vp_label@.subrange(0, vp_j + 1)) =~= ev_lower(vp_label@.subrange(0, vp_j)).push(HEv::U8(lower(b)))); } } proof { assert(vp_label@.subrange(0, vp_label@.len() as int) =~= vp_label@); lemma_labels_prefix_push(self, vp_k); lemma_flat_lower_push(self.labels().subrange(0, vp_k), self.label(vp_k)); assert(state.log@ =~= vp_log0 + seq![HEv::Bool(self.is_fqdn)] + flat_lower(self.labels().subrange(0, vp_k + 1))); } } proof { reveal(Name::labels); assert(self.labels().subrange(0, self.nlabels()) =~= self.labels()); assert(state.log@ =~= vp_log0 + hash_feed(*self)); }" # R-iter (same rewrite): closes the closure call, the two loop bodies; R-ann: ghost steps
+//%after "self.is_fqdn.hash(state);"
+        proof { assert(state.log@ =~= vp_log0 + seq![HEv::Bool(self.is_fqdn)] + flat_lower(self.labels().subrange(0, 0))); }
+//%entry
+        let ghost vp_log0 = state.log@;
+        proof {
+            lemma_label_slices(self);
+            if self.nlabels() > 0 { lemma_labels_prefix_push(self, 0); } else { reveal(Name::labels); assert(self.labels().subrange(0, 0) =~= Seq::<Seq<u8>>::empty()); }
+        }
+//%contract
+        requires self.wf()
+        ensures final(state).log@ == old(state).log@ + hash_feed(*self)
+//%end
+}
+pub proof fn lemma_label_slices(n: &Name)
+    ensures forall|i: int| label_slice(n, i)@ == n.label(i)
+{
+    assert forall|i: int| label_slice(n, i)@ == n.label(i) by { lemma_label_slice_view(n, i); }
+}
 } // verus!
 fn main() {}
